@@ -85,6 +85,7 @@ type EzSpec struct {
 	Kebab     bool     `json:"kebab,omitempty"`    // Params.FileFieldNameEncoder: the file's keys are kebab-case
 	Race      bool     `json:"race"`               // the writer starts while the entry point is still running
 	CmdLine   string   `json:"cmd_line,omitempty"` // "": a flag source of the harness's own; "default": Params.FlagSource left nil (the process's command line); "prereg": likewise, and the application has registered one of the flags itself beforehand
+	Linked    bool     `json:"linked,omitempty"`   // the config path is a symlink to a file with another name and extension; new versions are published by re-pointing it
 	Writes    []EzPart `json:"writes,omitempty"`
 	WriteHow  []string `json:"write_how,omitempty"` // rename | rewrite | delete-create
 }
@@ -177,6 +178,7 @@ func genEz(seed uint64, faulty bool) *Scenario {
 			e.File.Broken = true
 		}
 	}
+	e.Linked = e.FileState == "ok" && g.pct(20)
 	if e.Watch || g.pct(30) {
 		n := g.in(0, 4)
 		for i := 0; i < n; i++ {
@@ -191,6 +193,9 @@ func genEz(seed uint64, faulty bool) *Scenario {
 			}
 			e.Writes = append(e.Writes, p)
 			e.WriteHow = append(e.WriteHow, []string{"rename", "rename", "rewrite", "delete-create"}[g.r.IntN(4)])
+			if e.Linked && g.pct(60) {
+				e.WriteHow[len(e.WriteHow)-1] = "relink"
+			}
 		}
 		e.Race = g.pct(50)
 	}
@@ -429,7 +434,13 @@ func runEz(sc *Scenario, res *Result, keepLog bool) {
 	r.contents[e.File.ID] = &e.File
 	r.contents[e.Decoy.ID] = &e.Decoy
 	if e.FileState == "ok" {
-		must(os.WriteFile(r.path, e.File.render(e.Format, e.Kebab), 0644))
+		if e.Linked {
+			must(os.MkdirAll(filepath.Join(r.root, "w", "store"), 0755))
+			must(os.WriteFile(filepath.Join(r.root, "w", "store", "v0.data"), e.File.render(e.Format, e.Kebab), 0644))
+			must(os.Symlink(filepath.Join("store", "v0.data"), r.path))
+		} else {
+			must(os.WriteFile(r.path, e.File.render(e.Format, e.Kebab), 0644))
+		}
 		r.written = append(r.written, e.File.ID)
 	}
 	must(os.WriteFile(r.decoy, e.Decoy.render(e.Format, e.Kebab), 0644))
@@ -529,6 +540,15 @@ func runEz(sc *Scenario, res *Result, keepLog bool) {
 					os.WriteFile(r.path+".tmp", content, 0644)
 					simrt.Yield("w.tmp")
 					os.Rename(r.path+".tmp", r.path)
+				case "relink":
+					tgt := filepath.Join("store", fmt.Sprintf("v%d.data", i+1))
+					os.WriteFile(filepath.Join(r.root, "w", tgt), content, 0644)
+					simrt.Yield("w.target")
+					os.Remove(r.path + ".lnk")
+					os.Symlink(tgt, r.path+".lnk")
+					simrt.Yield("w.link")
+					os.Rename(r.path+".lnk", r.path)
+					r.probes["config-symlink-repointed"]++
 				case "delete-create":
 					os.Remove(r.path)
 					simrt.Yield("w.deleted")
